@@ -75,6 +75,9 @@ def _conf_lists(c):
 
 
 def impl(op, a):
+    if op == 1380:
+        from harness.props import c06h
+        return c06h.impl(op, a)
     if op == 1370:
         p, conf = _pdu(a)
         return _fields(p) + _conf_lists(conf)
@@ -385,6 +388,11 @@ def streams(tier, rng):
         if rng.random() < 0.3:
             cases.append((1373, [d]))
     yield "nak_garbage", "verdict", cases
+    # 10. operation histories (harness/props/c06h.py, model Run/DirHist.v)
+    from harness.props import c06h
+    for st in c06h.streams_for(["nak"], tier, rng, "c"):
+        yield st
+    yield "histories_limit_c", "exact", c06h.limit_cases("nak", rng, big)
 
 
 # ------------------------------------------------------------------ oracle
@@ -421,6 +429,9 @@ def _check_decoded(b, ires, what):
 def oracle(case, ires, sres):
     """The property itself, evaluated on the implementation's observable behaviour."""
     op, a = case
+    if op == 1380:
+        from harness.props import c06h
+        return c06h.oracle(case, ires, sres)
     err = ires[0][0] == 1
     code = ires[0][1] if err else None
     if op == 1371:
